@@ -95,8 +95,14 @@ impl<'a> FieldParser<'a> {
             ast::FieldDesc::Scalar { id, width } => {
                 let id = id.to_ident();
                 let value = types::get_uint(self.endianness, *width, self.span);
+                let check_size = self.optional_field_size_check(*width);
                 quote! {
-                    let #id = (#cond_id == #cond_value).then(|| #value);
+                    let #id = if #cond_id == #cond_value {
+                        #check_size
+                        Some(#value)
+                    } else {
+                        None
+                    };
                 }
             }
             ast::FieldDesc::Typedef { id, type_id } => match &self.scope.typedef[type_id].desc {
@@ -107,18 +113,21 @@ impl<'a> FieldParser<'a> {
                     let type_id = type_id.to_ident();
                     let decl_id = &self.packet_name;
                     let value = types::get_uint(self.endianness, *width, self.span);
+                    let check_size = self.optional_field_size_check(*width);
                     quote! {
-                        let #id = (#cond_id == #cond_value)
-                            .then(||
-                                #type_id::try_from(#value).map_err(|unknown_val| {
-                                    DecodeError::EnumValueError {
-                                        obj: #decl_id,
-                                        field: #name,
-                                        value: unknown_val as u64,
-                                        type_: #type_name,
-                                    }
-                                }))
-                            .transpose()?;
+                        let #id = if #cond_id == #cond_value {
+                            #check_size
+                            Some(#type_id::try_from(#value).map_err(|unknown_val| {
+                                DecodeError::EnumValueError {
+                                    obj: #decl_id,
+                                    field: #name,
+                                    value: unknown_val as u64,
+                                    type_: #type_name,
+                                }
+                            })?)
+                        } else {
+                            None
+                        };
                     }
                 }
                 ast::DeclDesc::Struct { .. } => {
@@ -321,6 +330,23 @@ impl<'a> FieldParser<'a> {
         }
 
         Some(offset)
+    }
+
+    /// Length guard for an optional scalar or enum field of `width` bits,
+    /// to be emitted in front of the read inside the presence branch.
+    fn optional_field_size_check(&self, width: usize) -> proc_macro2::TokenStream {
+        let span = self.span;
+        let packet_name = &self.packet_name;
+        let wanted = proc_macro2::Literal::usize_unsuffixed(width / 8);
+        quote! {
+            if #span.remaining() < #wanted {
+                return Err(DecodeError::LengthError {
+                    obj: #packet_name,
+                    wanted: #wanted,
+                    got: #span.remaining(),
+                });
+            }
+        }
     }
 
     fn check_size(&mut self, span: &proc_macro2::Ident, wanted: &proc_macro2::TokenStream) {
